@@ -29,9 +29,9 @@ SEQ = {
 
 
 # concurrent part: property -> (monitor flags of ConcProps.Judge, design-level models [(module, tag, cfg text)])
-def sinkconc(n, m, invs):
-    return ('SinkConc', 'sinkconc_%d_%d' % (n, m),
-            'SPECIFICATION Spec\nCONSTANTS NThreads = %d\n MaxCalls = %d\n ArbiterFix = TRUE\nINVARIANTS %s\nCHECK_DEADLOCK FALSE\n' % (n, m, ' '.join(invs)))
+def sinkconc(n, m, invs, fin=False):
+    return ('SinkConc', 'sinkconc_%d_%d%s' % (n, m, '_fin' if fin else ''),
+            'SPECIFICATION Spec\nCONSTANTS NThreads = %d\n MaxCalls = %d\n ArbiterFix = TRUE\n WithFinalize = %s\nINVARIANTS %s\nCHECK_DEADLOCK FALSE\n' % (n, m, 'TRUE' if fin else 'FALSE', ' '.join(invs)))
 
 
 def subjconc(kind, n, unsub, expect=None):
@@ -67,7 +67,7 @@ def timedops(n):
 C19INV = ['AtMostOneTerminal', 'NothingStartedAfterTerminal', 'ExactlyOneAtTheEnd']
 CONC = {
     # property: (monitor flags of ConcProps.Judge, design-level models quick, thorough)
-    'C19': (['C19'], [sinkconc(2, 2, C19INV)], [sinkconc(2, 2, C19INV), sinkconc(3, 1, C19INV), sinkconc(2, 3, C19INV)]),
+    'C19': (['C19'], [sinkconc(2, 2, C19INV), sinkconc(2, 1, C19INV, fin=True)], [sinkconc(2, 2, C19INV), sinkconc(3, 1, C19INV), sinkconc(2, 3, C19INV), sinkconc(2, 2, C19INV, fin=True)]),
     'C11': (['C11', 'C19'], [sinkconc(2, 2, ['AtMostOneTerminal']), combconc(3, 1, False), combconc(3, 2, True)],
             [sinkconc(3, 1, ['AtMostOneTerminal']), combconc(3, 2, False), combconc(4, 1, False), combconc(3, 3, True)]),
     'C07': (['C07'], [schedqueue(2, 2, '{11}', 'deadlock_2x2')], [schedqueue(2, 3, '{11}', 'deadlock_2x3'), schedqueue(3, 1, '{11}', 'deadlock_3x1')]),
